@@ -111,3 +111,150 @@ def proposeAll (per refl : Option (List Nat)) (nDim : Nat) (cur raws : List (Lis
   | .scalar _ => none
 
 end Model.BoundaryPy
+
+/-!
+  ## numpy dictionary of the SOURCE-DERIVED terms (translator G15 → `Gen/BoundarySrc.lean`, theorems `Props/C16Source.lean`)
+
+  The translator compiles the Python AST of `apply_boundary_conditions` / `check_bounds` into Lean terms: scalar arithmetic,
+  comparisons and literals go to the interface `Sc α` directly; every numpy / builtin operation on ARRAYS, index sets and
+  results goes to one of the definitions below (what the operation means on `Arr`).  These meanings are MODELLED numpy semantics
+  (hand-written, tied to the real code by the suites pycall-*, boundary-*); which operation is applied to which operands, in
+  which order, with which literal, is read from the source.
+-/
+namespace Model.Np
+open Model.BoundaryPy
+variable {α : Type} [Sc α]
+
+/-- a non-negative numeric literal of the source: integer-valued (`1.0`, `0`, `2.0`) or decimal `m · 10^(-e)` -/
+inductive Lit where
+  | nat (n : Nat)
+  | dec (m e : Nat)
+  deriving DecidableEq, Repr
+
+def Lit.val : Lit → α
+  | .nat n => Sc.ofNat n
+  | .dec m e => Sc.lit m e
+
+/-- floored remainder with a computed modulus: `x - floor(x / m) * m` -/
+def modG (x m : α) : α := Sc.sub x (Sc.mul (Sc.floor (Sc.div x m)) m)
+
+/-- `x % m` / `np.mod(x, m)` with a literal modulus.  Modulus `1`: `x − floor x` (identical to numpy's float remainder
+    for every finite double; MODELLED, compared bit for bit by suite boundary-F) -/
+def mod (x : α) : Lit → α
+  | .nat 1 => Sc.sub x (Sc.floor x)
+  | m => modG x m.val
+
+/-- `np.fmod(x, m)` (C remainder, sign of the dividend) with a literal modulus -/
+def fmod (x : α) (m : Lit) : α :=
+  let q := Sc.div x m.val
+  let t := if Sc.lt q Sc.zero then Sc.neg (Sc.floor (Sc.neg q)) else Sc.floor q
+  Sc.sub x (Sc.mul t m.val)
+
+/-- `np.mod(n, m) == z` with literal `m`, `z`.  `m = 2`, `z = 0` is the parity test `Sc.isEven` of the interface -/
+def modEq (n : α) : Lit → Lit → Bool
+  | .nat 2, .nat 0 => Sc.isEven n
+  | m, z => Sc.le (mod n m) z.val && Sc.le z.val (mod n m)
+
+/-- `np.where(c, a, b)` on one element -/
+def where_ (c : Bool) (a b : α) : α := if c then a else b
+
+/-- `np.ceil` through the interface -/
+def ceil (x : α) : α := Sc.neg (Sc.floor (Sc.neg x))
+
+/-- the shape of an element access `u[…]` with one index variable -/
+inductive Ix where
+  | ellLast     -- `u[..., idx]`
+  | first       -- `u[idx]`
+  deriving DecidableEq, Repr
+
+/-- `u[ix] = f(u[ix])`, `f` element-wise -/
+def upd : Ix → Nat → (α → α) → Arr α → Arr α
+  | .ellLast, i, f, a => colModify i f a
+  | .first, i, f, .d1 u => .d1 (u.modify i f)
+  | .first, i, f, .d2 n us => .d2 n (us.modify i (fun row => row.map f))
+
+/-- `if o is not None: x = f(o)` (else `x` stays `dflt`): the value of `x` afterwards -/
+def ifSome {β γ : Type} (o : Option β) (dflt : γ) (f : β → γ) : γ :=
+  match o with
+  | none => dflt
+  | some b => f b
+
+/-- `if o is None: x = e` (else `x = f(o)`) -/
+def ifNone {β γ : Type} (o : Option β) (e : γ) (f : β → γ) : γ :=
+  match o with
+  | none => e
+  | some b => f b
+
+/-- `u.copy()` (the model is functional) -/
+def copy (a : Arr α) : Arr α := a
+
+/-- `u.ndim` -/
+def ndim : Arr α → Nat
+  | .d1 _ => 1
+  | .d2 _ _ => 2
+
+/-- `u.shape[k]` (0 where Python raises) -/
+def shapeAt : Arr α → Int → Nat
+  | .d1 u, k => if k = -1 ∨ k = 0 then u.length else 0
+  | .d2 n us, k => if k = -1 ∨ k = 1 then n else if k = 0 ∨ k = -2 then us.length else 0
+
+/-- Python `set` of indices: a list read through membership only -/
+abbrev NSet := List Nat
+
+/-- `set(range(n))` -/
+def setRange (n : Nat) : NSet := List.range n
+/-- `set()` -/
+def setEmpty : NSet := []
+/-- `s.update(l)` -/
+def setUpdate (s : NSet) (l : List Nat) : NSet := s ++ l
+/-- `a - b` -/
+def setDiff (a b : NSet) : NSet := a.filter fun i => !b.contains i
+/-- `a | b` -/
+def setUnion (a b : NSet) : NSet := a ++ b
+/-- `set(l)` -/
+def setOf (l : List Nat) : NSet := l
+/-- `list(s)` (some order; only read under `all`) -/
+def toList (s : NSet) : List Nat := s
+
+/-- `u[..., l]` with an index LIST (fancy indexing on the last axis) -/
+def take : Arr α → List Nat → Arr α
+  | .d1 u, l => .d1 (l.filterMap fun i => u[i]?)
+  | .d2 _ us, l => .d2 l.length (us.map fun row => l.filterMap fun i => row[i]?)
+
+/-- element-wise comparison of an array with a scalar: `u >= 0` -/
+def cmp (p : α → Bool) : Arr α → Arr Bool
+  | .d1 u => .d1 (u.map p)
+  | .d2 n us => .d2 n (us.map fun row => row.map p)
+
+/-- `np.all(b)` -/
+def allFlat : Arr Bool → Res
+  | .d1 u => .scalar (u.all id)
+  | .d2 _ us => .scalar (us.all fun row => row.all id)
+
+/-- `np.all(b, axis=k)` -/
+def allAxis : Arr Bool → Int → Res
+  | .d1 u, _ => .scalar (u.all id)
+  | .d2 n us, k =>
+    if k = -1 ∨ k = 1 then .vec (us.map fun row => row.all id)
+    else .vec ((List.range n).map fun j => us.all fun row => match row[j]? with | some b => b | none => true)
+
+/-- Python `a and b` on truth values -/
+def andPy : Res → Res → Res
+  | .scalar a, .scalar b => .scalar (a && b)
+  | .scalar a, .vec bs => if a then .vec bs else .scalar a
+  | .vec as, r => if as.isEmpty then .vec as else r      -- (a non-empty vector of length > 1 raises; not modelled)
+
+/-- numpy `a & b` on boolean results (broadcasting a scalar) -/
+def andBit : Res → Res → Res
+  | .scalar a, .scalar b => .scalar (a && b)
+  | .scalar a, .vec bs => .vec (bs.map fun b => a && b)
+  | .vec as, .scalar b => .vec (as.map fun a => a && b)
+  | .vec as, .vec bs => .vec (List.zipWith (fun a b => a && b) as bs)
+
+/-- `np.ones(n, dtype=bool)` -/
+def ones (n : Nat) : Res := .vec (List.replicate n true)
+
+/-- `True` / `False` -/
+def const (b : Bool) : Res := .scalar b
+
+end Model.Np
